@@ -4,6 +4,9 @@ import json, os, sys
 V = os.path.dirname(os.path.dirname(os.path.abspath(__file__)))
 sys.path.insert(0, os.path.join(V, "lib"))
 from registry import REG, MANIFEST_TEXT, NOT_APPLICABLE
+# only checks the maintainer has accepted are claimed (one id per line in lib/ready.txt)
+READY = set(open(os.path.join(V, 'lib', 'ready.txt')).read().split())
+REG = {k: v for k, v in REG.items() if k in READY}
 props = [json.loads(l)["id"] for l in open(os.path.join(V, "properties.jsonl"))]
 checks = []
 for pid in props:
